@@ -16,6 +16,7 @@ c_T3All   == SUBSET c_N3                                        \* every graph o
 c_T3Deg1  == {S \in SUBSET c_N3 : Cardinality(S) <= 1}
 c_T3G     == {S \in SUBSET (c_N3 \cup c_Ghost9) : Cardinality(S) <= 2}
 c_T2G     == {S \in SUBSET (c_N2 \cup c_Ghost9) : Cardinality(S) <= 2}
+c_T2GSmall == {S \in c_T2G : Cardinality(S) <= 1} \cup {c_N2}
 c_T3GDeg1 == {S \in SUBSET (c_N3 \cup c_Ghost9) : Cardinality(S) <= 1}
 c_T4Deg2  == {S \in SUBSET c_N4 : Cardinality(S) <= 2}
 c_T4Deg2Hub == c_T4Deg2 \cup {c_N4}                              \* out-degree <= 2, or a hub linked to everything
@@ -26,7 +27,8 @@ c_Seeds3    == SeqsNoRep(c_N3, {1, 2})
 c_Seeds3One == SeqsNoRep(c_N3, {1})
 c_Seeds3G   == SeqsNoRep(c_N3, {1}) \cup {<<9, 1>>, <<1, 9>>, <<2, 3>>}
 c_Seeds2G   == {<<1>>, <<2, 1>>, <<9, 1>>}
-c_Seeds4    == {<<1>>, <<1, 2>>, <<2, 1>>, <<3, 4>>}
+c_Seeds3GFew == {<<1>>, <<9, 1>>, <<2, 3>>}
+c_Seeds4    == {<<1>>, <<2, 1>>}
 
 c_Graph  == {"graph"}
 c_Greedy == {"greedy"}
